@@ -267,7 +267,7 @@ class View:
 
 RECT_KINDS_CLEAN = ('node', 'stmt', 'newline-stmt', 'tok')
 RECT_KINDS_ALL = ('node', 'stmt', 'newline-stmt', 'newline-stmt0', 'tok', 'tokrange', 'intok', 'span', 'lines', 'indent', 'point',
-                  'random', 'header', 'stmt-tail', 'stmt-head', 'gap', 'elif-whole')
+                  'random', 'header', 'stmt-tail', 'stmt-head', 'gap', 'elif-whole', 'inline-stmt')
 
 
 def pick_rect(v: View, rng: random.Random, kind: str):
@@ -402,6 +402,23 @@ def pick_rect(v: View, rng: random.Random, kind: str):
             return None
         n = rng.choice(c)
         return v.rect(n), {'elif': n}
+    if kind == 'inline-stmt':
+        # a simple statement that is not the first thing on its line (one-line block body, after ';')
+        c = [s for s in v.stmts if isinstance(s, ast.stmt) and not isinstance(s, BLOCK_STMTS)
+             and L[v.rect(s)[0]][:v.rect(s)[1]].strip()]
+        if not c:
+            return None
+        n = rng.choice(c)
+        r = v.rect(n)
+        st = [t for t in v.toks if r[:2] <= v.tok_rect(t)[:2] and v.tok_rect(t)[2:] <= r[2:]]
+        m = rng.random()
+        if m < 0.4 or not st:
+            return r[:2] + r[:2], {'inline': n}
+        if m < 0.6:
+            return r[:2] + v.tok_rect(st[0])[2:], {'inline': n}
+        if m < 0.8:
+            return r, {'inline': n}
+        return r[:2] + v.tok_rect(st[-1])[:2], {'inline': n}
     if kind == 'gap' and len(v.toks) >= 2:
         i = rng.randrange(len(v.toks) - 1)
         a, b = v.tok_rect(v.toks[i]), v.tok_rect(v.toks[i + 1])
@@ -430,6 +447,8 @@ INVALID = [')', '(', '$', 'if', "'", '"""', ':', '=', '?', ']', 'def', '\\', '1x
 GLUE = [';', '; ', '\n', ' ', '  ', ',', ', ', '.', ':', ' = ', '(', ')', '\\\n', ' if ', ' else ', ' and ', ' in ', ' is ',
         ' not ', 'async ', 'await ', '*', '**', '# c', '# c\n', ' # c', '#', 'not ', 'lambda: ', ':=', ' for q in r', '@',
         '-', '~', 'yield ', 'from ', ' as n', 'elif', 'else', 'except', 'finally', 'case ', ' from e', 'del ', 'return ']
+COMPOUND_PREFIXES = ['if c: ', 'while b: ', 'for i in j: ', 'with k: ', 'def g(): ', 'class K: ', 'try: ', 'async def g(): ',
+                     'match m: ', 'else: ', 'elif c: ', 'async for i in j: ', 'async with k: ']
 BLOCK_KEYWORDS = ['if', 'while', 'for', 'async for', 'with', 'async with', 'def', 'async def', 'class', 'try', 'except',
                   'except*', 'elif', 'else', 'finally', 'match', 'case']
 BLOCK_KEYWORDS_1 = ('if', 'while', 'for', 'with', 'def', 'class', 'try', 'except', 'elif', 'else', 'finally', 'async',
@@ -499,6 +518,12 @@ def pick_repl(v: View, rng: random.Random, rect, rkind: str, aux: dict, profile:
             return 'empty', ''
         s = rng.choice(STMTS) if rng.random() < 0.6 else rng.choice(BLOCKS).format(i=ind)
         return 'stmt-line', ind + s + ('\n' if aux.get('lines') == 'with-newline' else '')
+    if rkind == 'inline-stmt':
+        if r < 0.6:
+            return 'compound-prefix', rng.choice(COMPOUND_PREFIXES)
+        if r < 0.75:
+            return 'compound', rng.choice(COMPOUND_PREFIXES) + 'y'
+        return 'stmt', rng.choice(['z', 'z = 3', 'pass', 'return z', '', 'z; '])
     if rkind == 'header' and aux.get('kwtok') and r < 0.7:
         return 'block-keyword', rng.choice(BLOCK_KEYWORDS)
     if rkind == 'header' and r < 0.5:
@@ -537,10 +562,10 @@ PROFILES = {
     # new statement line at column 0 of a top-level statement, whole-statement replacement called on a statement
     # node, whole `elif` replacement, indentation and whole-line edits; 'wild' = everything
     'clean': {'node': 5, 'stmt': 4, 'newline-stmt': 3, 'newline-stmt0': 3, 'tok': 3, 'elif-whole': 1, 'indent': 1, 'lines': 1,
-              'header': 2},
+              'header': 2, 'inline-stmt': 2},
     'wild': {'node': 2, 'stmt': 2, 'newline-stmt': 1, 'newline-stmt0': 1, 'tok': 3, 'tokrange': 3, 'intok': 3, 'span': 3, 'lines': 3,
              'indent': 3, 'point': 4, 'random': 3, 'header': 3, 'stmt-tail': 2, 'stmt-head': 2, 'gap': 2,
-             'elif-whole': 2},
+             'elif-whole': 2, 'inline-stmt': 2},
 }
 
 
@@ -962,4 +987,12 @@ def run_hdr_row(rec: RawRecorder, tid: int, row):
     sc = {'driver': 'hdrtable', 'src': src, 'mode': 'exec', 'seed': 0, 'profile': 'hdrtable', 'case': case,
           'script': [{'plan': plan, 'pre_src': src, 'post_src': root.src,
                       'exc': None if exc is None else f'{type(exc).__name__}: {exc}'}]}
+    return tr, sc, mism
+
+
+def run_inl_row(rec: RawRecorder, tid: int, row):
+    """row of RawInlGen.tla (inline positions x simple->compound rewrites); same protocol as run_hdr_row"""
+    tr, sc, mism = run_hdr_row(rec, tid, row)
+    tr['steps'][0]['gen'] = 'inltable'
+    sc['driver'] = sc['profile'] = 'inltable'
     return tr, sc, mism
